@@ -330,7 +330,7 @@ def etype(e, ctx):
         if not b:
             raise Corner("~ on a bit-vector")
         return 1, False, True
-    if k in ("in", "nin", "dyn"):
+    if k in ("in", "nin", "dyn", "dyni"):
         return 1, False, True
     if k == "ps":
         return e[2] - e[3] + 1, False, False
@@ -597,6 +597,13 @@ def truth(e, ctx):
         return not member(e[1], e[2], ctx)
     if k == "dyn":
         return dyn_truth(e, ctx)
+    if k == "dyni":
+        # ["dyni", listpath, index expr, block]: dynamic block of the list element selected by a computed index
+        i = ev_self(e[2], ctx)
+        n = len(get_at(ctx.root, ctx.abs(e[1])))
+        if not (0 <= i < n):
+            raise Corner("list index outside the list")
+        return dyn_truth(["dyn", list(e[1]) + [i], e[3]], ctx)
     raise Corner("non-Boolean expression used as a statement: %r" % (e[0],))
 
 
